@@ -258,7 +258,42 @@ fn run_obj(edges: &[Value], t: &mut Tracer) {
 
 /// the migrate entry points: every contract asked to migrate to the freshly stored code of every contract (its own included: the
 /// same version), by the chain-level admin and by a stranger. Beyond the listed properties (S_ guards).
+/// the one migration that does something: a deployment stored at v1.2.0 (pool records without switches) upgraded by the real
+/// `migrate`: every pool comes out with all switches on, except the pool the upgrade names (o.ausdy.uusdc: swaps and deposits off)
+fn run_upgrade_from_v120(t: &mut Tracer) {
+    let mut s = fresh();
+    let o = s.users[0].clone();
+    for id in ["ausdy.uusdc", "zz", "b"] {
+        let _ = s.exec_pm(&o, &pm::ExecuteMsg::CreatePool {
+            asset_denoms: vec!["uusdc".into(), "uusdt".into()], asset_decimals: vec![6, 6], pool_fees: crate::drivers::farm::zero_fees(),
+            pool_type: pm::PoolType::ConstantProduct, pool_identifier: Some(id.into()) }, &[coin(8888, "uom"), coin(1000, "uusd")]);
+    }
+    let pools_json = |s: &Sys| -> Value {
+        let mut m = serde_json::Map::new();
+        for id in ["o.a", "o.ausdy.uusdc", "o.b", "o.zz"] {
+            if let Some(p) = s.q_pool(id) {
+                let st = &p.pool_info.status;
+                let mut rest = p.pool_info.clone();
+                rest.status = Default::default();
+                m.insert(id.to_string(), json!({"sw": st.swaps_enabled, "dep": st.deposits_enabled, "wd": st.withdrawals_enabled, "rest": format!("{:?}", rest)}));
+            }
+        }
+        Value::Object(m)
+    };
+    let before = pools_json(&s);
+    let n = s.downgrade_pool_manager_storage();
+    let r = s.try_migrate("pm", "pm", &o);
+    let after = pools_json(&s);
+    t.emit("auth_upgrade", json!({"downgraded": n.clone().unwrap_or(0), "ok": r.is_ok(), "errtext": r.err().unwrap_or_default().chars().take(160).collect::<String>(),
+        "named": "o.ausdy.uusdc", "before": before, "after": after}));
+    // and again: the stored version is current now, nothing to upgrade
+    let again = s.try_migrate("pm", "pm", &o);
+    let after2 = pools_json(&s);
+    t.emit("auth_upgrade_again", json!({"ok": again.is_ok(), "same": after2 == after}));
+}
+
 fn run_migrations(t: &mut Tracer) {
+    run_upgrade_from_v120(t);
     for c in ["pm", "fm", "em", "fc"] {
         for code in ["pm", "fm", "em", "fc"] {
             for by_admin in [true, false] {
